@@ -4,7 +4,7 @@ from __future__ import annotations
 from sa.terms import C, CallT, P, Sub, SubC, is_lit, show, show_fact, subterms
 from sa.walker import State, flatten_events
 
-from . import CHECKER, VSIG, call_events, flat, fn_site, loc, mentions
+from . import own_site, CHECKER, VSIG, call_events, flat, fn_site, loc, mentions
 
 EXPLANATION = (
     "Information-flow rule on verify_delegation. R1: for every exception that a handler in verify_delegation catches "
@@ -115,7 +115,7 @@ def run(ctx):
     )
     n = 0
     for p in sm.paths:
-        if p.kind == "raise" and p.value.origin == "explicit" and len(p.value.chain) == 1 and (("ne", name, ty) in p.facts or ("ne", ty, name) in p.facts):
+        if p.kind == "raise" and p.value.origin == "explicit" and all(own_site(eng, st_, "authentication.verify_delegation") for st_ in p.value.chain) and (("ne", name, ty) in p.facts or ("ne", ty, name) in p.facts):
             n += 1
             s = p.value.chain[0]
             ctx.ob("R2", "mismatch-error|%s" % s.key(), s.loc(), "a type-for-role mismatch is rejected with %s" % p.value.exc, eng.prog.exc_is_sub(p.value.exc, "MetadataVerificationError"))
